@@ -121,7 +121,12 @@ impl<'a> FullnameSerializer<'a> {
     // should be in the empty prefix (xhtml, mathml, svg)
     pub(crate) fn add_empty_prefix(&mut self, namespace_id: NamespaceId) {
         let current_fullname_info = self.stack.last_mut().unwrap();
-        let empty_entry = (self.xot.empty_prefix(), namespace_id);
+        let empty_prefix = self.xot.empty_prefix();
+        // the new binding replaces any other binding of the empty prefix
+        current_fullname_info
+            .all_namespaces
+            .retain(|(prefix_id, _)| *prefix_id != empty_prefix);
+        let empty_entry = (empty_prefix, namespace_id);
         current_fullname_info.all_namespaces.push(empty_entry);
     }
 
